@@ -4,7 +4,8 @@
     rational ([store P]); nothing is assumed about it.  "Accepted" is [ingest P t = Ok d]. *)
 From Coq Require Import ZArith QArith List Bool Permutation Sorted.
 From Coq Require String.
-From Leaspy Require Import Base.QAux Io.Ingest Io.F32 Io.IngestTie Io.IngestProofs Io.IngestExamples.
+From Leaspy Require Import Base.QAux Io.Ingest Io.F32 Io.IngestTie Io.IngestProofs Io.IngestExamples Io.IngestSrc Io.IngestSrcProofs Io.IngestSrcTie.
+From LeaspyGen Require Import GenC14.
 Import ListNotations.
 Open Scope Z_scope.
 
@@ -168,3 +169,53 @@ Proof.
   exists d. split; [reflexivity|]. apply existsb_exists in H. destruct H as [x [Hx E]]. apply ident_eqb_eq in E. now subst.
 Qed.
 Print Assumptions C14_categorical_id_refuted.
+
+(* ------------------------------------------------------------------ source-level tie (T1): the readers' decision table *)
+(** The ordered decision table REGENERATED from the source of the four dataframe readers (checks in execution order, each with the
+    comparison operator, constant, quantifier, aggregate and exception class read from the code, and the two class constants) is
+    the table the hand-written model implements. *)
+Theorem C14_src_table : gen_readers = model_readers.
+Proof. exact gen_readers_is_model. Qed.
+Print Assumptions C14_src_table.
+
+(** Running that table with the generic meaning of its vocabulary ([cmpZ], [cmpQ], [quantb], [aggZ]) IS the hand-written model:
+    every theorem above about [ingest_data] / [ingest] is a theorem about the regenerated table, at the constants it carries. *)
+Theorem C14_src_is_model : forall st t,
+  src_ingest_data gen_readers st t = ingest_data (P_of gen_readers st) t /\ src_ingest gen_readers st t = ingest (P_of gen_readers st) t.
+Proof. intros. split; [apply gen_ingest_data_is_model | apply gen_ingest_is_model]. Qed.
+Print Assumptions C14_src_is_model.
+
+(** [C14_rejects] over the regenerated table. *)
+Theorem C14_src_rejects : forall st t, malformed_front (P_of gen_readers st) t -> src_ingest gen_readers st t = Err DataError.
+Proof. exact gen_rejects_front. Qed.
+Print Assumptions C14_src_rejects.
+
+(** [C14_rejects_never_accepted] over the regenerated table. *)
+Theorem C14_src_rejects_never_accepted : forall st t, inconsistent (P_of gen_readers st) t -> forall d, src_ingest gen_readers st t <> Ok d.
+Proof. exact gen_rejects_inconsistent. Qed.
+Print Assumptions C14_src_rejects_never_accepted.
+
+(** Joint layout: an OBSERVED event earlier than ANY age of its individual minus the tolerance of the regenerated table (i.e. earlier
+    than the MAXIMAL age minus tol) is refused with a data-input error — the row [y] may stand anywhere in the table.
+    Visible hypotheses: the earlier checks pass (otherwise they refuse, possibly with another class: [C14_event_indicator_nan_refuted])
+    and no indicator is negative (a negative indicator of another offender can cancel the sum the readers test). *)
+Theorem C14_src_rejects_event_before_max_age : forall st t xs0 xs nb x y q,
+  let P := P_of gen_readers st in
+  t_layout t = LJoint ->
+  clean_index P t = Ok xs0 -> clean_numeric t xs0 = Ok xs -> clean_visits t xs = Ok tt ->
+  clean_events P t (match t_idkind t with
+                    | KCategorical => existsb (fun i => negb (existsb (ident_eqb i) (ids_of xs))) (ids_of xs0)
+                    | _ => false end) xs = Ok nb ->
+  (forall z, In z xs -> 0 <= evb_z z) ->
+  In x xs -> In y xs -> x_id y = x_id x -> x_evt x = Fin q -> 0 < evb_z x ->
+  (micro P (round_time P q) - micro P (x_time y) < - tol P)%Q ->
+  src_ingest gen_readers st t = Err DataError.
+Proof. exact gen_rejects_event_before_any_age. Qed.
+Print Assumptions C14_src_rejects_event_before_max_age.
+
+(** Row-order invariance (Data level, every layout) of the regenerated table. *)
+Theorem C14_src_row_order_invariant_data : forall st t rows' inds inds',
+  Permutation (t_rows t) rows' ->
+  src_ingest_data gen_readers st t = Ok inds -> src_ingest_data gen_readers st (with_rows t rows') = Ok inds' -> Permutation inds inds'.
+Proof. exact gen_row_order_invariant_data. Qed.
+Print Assumptions C14_src_row_order_invariant_data.
